@@ -259,7 +259,8 @@ structure Occ where
   id : Nat
   /-- `time.monotonic()` (in ticks; the harness uses µs) when the guards are evaluated -/
   t : Nat
-  /-- the occurrence time the windows see: `trigger_time` of a time trigger, `dt_now()` otherwise -/
+  /-- the occurrence time the windows see: `trigger_time` of a time trigger, the COMPLETION instant of a `state_hold`
+      (legacy: `now = time_next` on the hold's timeout; new: `dt_now()` at dispatch), `dt_now()` otherwise -/
   wall : Int
   /-- did the trigger's own condition hold (state / event expression)? -/
   trigOk : Bool
